@@ -38,6 +38,8 @@ typedef uint8_t T;
 typedef int32_t T;
 #elif CFG_ELEM == 12
 typedef vf::TC12 T;
+#elif CFG_ELEM == 32
+typedef vf::TC32 T;
 #elif CFG_ELEM == 20
 typedef vf::TR T;
 #elif CFG_ELEM == 21
